@@ -7,7 +7,6 @@ package c06
 import (
 	"fmt"
 	"math/rand"
-	"os"
 	"strings"
 	"sync"
 	"testing"
@@ -531,5 +530,5 @@ func TestCheck(t *testing.T) {
 	nconc := r.Pick(40, 1000)
 	h.Parallel(nconc, 4, func(i int) { runConcurrent(r, i) })
 	r.Count("concurrent_runs", int64(nconc))
-	os.Exit(r.Finish(20))
+	h.Exit(r.Finish(20))
 }
